@@ -17,6 +17,7 @@ type evaluator struct {
 	pkgPath string
 	err     []string
 	bound   map[string]*Val
+	own     bool // clause of the function under verification: its not-yet-assigned locals are unconstrained
 }
 
 func (ev *evaluator) fail(f string, a ...any) *Val {
@@ -29,6 +30,9 @@ func (vf *VerifyFunc) evalClause(st *State, c *Clause, env map[string]*Val, old 
 	if vf.fc != nil {
 		pkg = vf.fc.PkgPath
 	}
+	save := vf.ownEval
+	vf.ownEval = true
+	defer func() { vf.ownEval = save }()
 	return vf.evalClauseIn(st, c, env, old, pkg)
 }
 
@@ -56,10 +60,12 @@ func (vf *VerifyFunc) evalClauseIn(st *State, c *Clause, env map[string]*Val, ol
 	if _, isSplit := c.E.(ESplit); isSplit {
 		return and(vf.evalGoals(st, c, env, old)...)
 	}
-	ev := &evaluator{st: st, vf: vf, env: env, pkgPath: pkgPath}
+	ev := &evaluator{st: st, vf: vf, env: env, pkgPath: pkgPath, own: vf.ownEval}
+	vf.ownEval = false // nested evaluations (callee contracts applied while evaluating) are not the function's own
 	saveOld, saveUse := st.oldHeap, st.useOld
 	st.oldHeap = old
 	v := ev.eval(c.E)
+	vf.ownEval = ev.own
 	st.oldHeap, st.useOld = saveOld, saveUse
 	if len(ev.err) > 0 {
 		vf.eng.contractError(fmt.Sprintf("%s:%d: %s: %s", c.File, c.Line, c.Src, strings.Join(ev.err, "; ")))
@@ -122,6 +128,13 @@ func (ev *evaluator) lookupIdent(name string) *Val {
 	if p := ev.pkg(); p != nil {
 		if obj := p.Scope().Lookup(name); obj != nil {
 			return ev.objVal(obj)
+		}
+	}
+	// a local of the function under contract that has no value on this path (declared after an early return):
+	// its value is unconstrained here, so a clause can only hold through its antecedent
+	if ev.own && ev.vf != nil && ev.vf.fn != nil {
+		if t := ev.vf.eng.localType(ev.vf.fn, name); t != nil {
+			return ev.st.freshVal(t, "undef_"+name)
 		}
 	}
 	switch name {
@@ -950,7 +963,8 @@ func (vf *VerifyFunc) frameGoal(st *State, k, cur string, allowed []string) stri
 			return "(forall ((fr_k " + specSort(g.Params[0]) + ")) (! (=> " + and(ex...) + " (= (select " + cur + " fr_k) (select " + sym(n0) + " fr_k))) :pattern ((select " + cur + " fr_k))))"
 		}
 	}
-	ex := []string{"(<= (obj_root fr_r) " + vf.entryFrontier + ")"}
+	// the null reference has no fields: a callee's "modifies x.f.g" with x.f == nil names no location
+	ex := []string{"(<= (obj_root fr_r) " + vf.entryFrontier + ")", "(not (= fr_r 0))"}
 	for _, r := range allowed {
 		ex = append(ex, not(eq("fr_r", r)))
 	}
